@@ -5,11 +5,12 @@ from vlib import sh
 
 PROPS = ["C05/Props.v"]
 META = dict(
-    text="Rocq theorems: (i) for EVERY batch partition of the input and EVERY arrival permutation of the transformed batches at the order-restoring writer (every batch size, worker count and schedule) the record-wise pipeline outputs flat_map f of the input in order (built on the resequencer theorem), instantiated with the per-record functions of obiconvert, obicomplement (the two in-place loops of ReverseComplement transcribed and PROVED equal to reverse-complement / reverse for every length), obigrep -l/-L/-c/-C/-v, obiannotate --length and obicsv --ids --count -s -k (rows) written over an abstract record (id, sequence, qualities, annotation map); (ii) folding commands (obicount, the count section of obisummary, per-worker partial results merged as in obisummary): in any commutative monoid the result is the sequential fold whatever the partition and the arrival order, and obicount's three numbers are what they should be; (iii) on the ownership model of the buffer pool, in every interleaving respecting the ownership discipline an owner's buffer holds its own last write. Tie to the code on every run: the REAL commands' output records are parsed and compared, by vm_compute, with flat_map (cmd_f c) / the fold of the input records; the ten commands built with the verif hook (recycled buffers poisoned) run over a --max-cpu x --batch-size x GOMAXPROCS x repetition grid with byte-wise comparison; the real library pipelines (reader -> Rebatch -> worker pool -> writer; pairing included) are run in-process under hundreds of configurations with injected random yields; WHOLE get/recycle traces of both pools of every command line are replayed through the model's validator by vm_compute; fresh-process trials of the first concurrent use of the JSON machinery.",
-    note="Partial by nature: purity of the real per-record functions, sync.Pool and the Go scheduler are not modelled — covered by the correspondence of output records, the grid and the in-process exploration (samples of schedules), the poison, trace validation and, in the thorough tier, race-detector builds whose reports are a violation only when BOTH accesses lie in code holding record bytes (obiseq, obialign, obiapat, obikmer, obingslibrary) and match none of the benign patterns of the unchanged tree. The reader's normalisation (lower-casing, definition -> annotation) and title-line parsing are rendered in Python (C01/C02 own them); ReverseComplement's rewrite of a pairing_mismatches map and non-integer count attributes are outside the record model (cmd_pre rejects such inputs). Per-record functions of obipairing/obimultiplex/obipcr are modelled under C08/C12/C11; obisummary beyond its count section, obicsv with other options or with non string/integer values: here only determinism is claimed. The first-use crash of go-json is schedule dependent (about 1 trial in 2200): the thorough tier is the one that finds it again; obidistribute's [2]string decode (one goroutine per output file) is the same mechanism and is not covered.")
+    text="Rocq theorems: (i) for EVERY batch partition of the input and EVERY arrival permutation of the transformed batches at the order-restoring writer (every batch size, worker count and schedule) the record-wise pipeline outputs flat_map f of the input in order (built on the resequencer theorem), instantiated with the per-record functions of obiconvert, obicomplement (the two in-place loops of ReverseComplement transcribed and PROVED equal to reverse-complement / reverse for every length), obigrep -l/-L/-c/-C/-v, obiannotate --length, a conditional worker, and obicsv --ids --count -s -k (rows) written over an abstract record (id, sequence, qualities, annotation map); (ii) the stages that merge or split streams, transcribed: Concat's renumbering (order + largest number pushed + 1) gives, for any arrival order inside each iterator, the numbered batches of the streams one after the other; DivideOn's two buffers and counters give two streams numbered without hole carrying the selected / rejected records in order, for every batch size; (iii) folding commands: in any commutative monoid the result is the sequential fold whatever the partition and the arrival order, obicount's three numbers are what they should be, and obisummary's DataSummary.Update / Add / ISummary transcribed over one table of counters: every counter and the number of keys of every map of the merged per-worker summaries read as in the one-pass summary; (iv) on the ownership model of the buffer pool, in every interleaving respecting the ownership discipline an owner's buffer holds its own last write. Tie to the code on every run: the REAL commands' output records are parsed and compared, by vm_compute, with flat_map (cmd_f c) / the fold of the input records, the input being presented as one file, three files cut at random places, stdin and gzip; the WHOLE printed obisummary (three inputs: every counter distinct, one record without obiclean_status, mixed) is compared with the model's one-pass summary and with a Python oracle; the ten commands built with the verif hook (recycled buffers poisoned) run over a --max-cpu x --batch-size x GOMAXPROCS x repetition grid with byte-wise comparison, and the command-level glue (several input files, stdin, gzip in / -Z out, -o, --paired-with for obiconvert / obigrep / obiannotate, --save-discarded, -u, --no-order as a multiset, parallelism through OBIMAXCPU / OBIBATCHSIZE, --solexa, empty and one-record files, obimultiplex tag matching strict / hamming / indel / delimited / rescue on tags with errors, obipcr --circular / --delta / --min-length / --only-complete-flanking, obipairing --exact-mode / --fast-absolute / --without-stat) is judged by EQUALITIES between command lines that must write the same bytes plus direct oracles of the paired / divided outputs; the real library pipelines (reader -> Rebatch -> worker pool -> writer; pairing; DivideOn behind a worker pool, Concat and Pool of several readers, FilterEmpty, MakeIConditionalWorker, WorkerPipe, full-file batches = Load, Load + IBatchOver) are run in-process under hundreds of configurations with injected random yields, their outputs judged by the Python oracle and by the Coq per-record model; WHOLE get/recycle traces of both pools of every command line are replayed through the model's validator by vm_compute; fresh-process trials of the first concurrent use of the JSON machinery.",
+    note="Partial by nature: purity of the real per-record functions, sync.Pool and the Go scheduler are not modelled — covered by the correspondence of output records, the grid and the in-process exploration (samples of schedules), the poison, trace validation and, in the thorough tier, race-detector builds whose reports are a violation only when BOTH accesses lie in code holding record bytes (obiseq, obialign, obiapat, obikmer, obingslibrary) and match none of the benign patterns of the unchanged tree. The reader's normalisation (lower-casing, definition -> annotation) and title-line parsing are rendered in Python (C01/C02 own them); ReverseComplement's rewrite of a pairing_mismatches map and non-integer count attributes are outside the record model (cmd_pre rejects such inputs; obicomplement on the output of obipairing is in the grid: determinism only). Per-record functions of obipairing/obimultiplex/obipcr are modelled under C08/C12/C11; obicsv with other options or with non string/integer values, obiannotate beyond --length (--rename-tag, --delete-tag, -S expressions are in the grid), --solexa: here only determinism is claimed. The first-use crash of go-json is schedule dependent (about 1 trial in 2200): the thorough tier is the one that finds it again; obidistribute's [2]string decode (one goroutine per output file) is the same mechanism and is not covered. Outside the property (recorded leads): `obisummary --map ATTR` dies at start-up in every configuration (ISummary writes into summaries[n].map_summaries before the summaries are allocated; map_summaries is never filled, merged nor printed): deterministic, hence not a C05 matter, and DataSummary.Add's silence about map_summaries is unobservable; --max-cpu 1 is silently raised to 2 (only --force-one-cpu gives one worker: in the grid); obicsv prints numbers of more than 6 digits read from a JSON title in exponent notation (same in every configuration); duplicate identifiers and CRLF files are not generated (C01/C06). Not exercised, because no record-wise command of the property reaches them: FilterAnd (no caller in the tree), IBioSequence Lock/Unlock/RLock/RUnlock/IsNil/BatchSize/SetBatchSize, PCRSim/PCRSlice and the batch / worker options of obiapat (obipcr goes through PCRSliceWorker), the attribute accessors of obitag / obilandmark / taxonomy (OBITagRefIndex, GetCoordinate, Taxid, ...), BioSequence.Copy/MD5/Features/WriteByte..., NewBioSequenceWithQualities; not exercised because they are error or service paths: --help / --version / --debug / --pprof*, option-parse errors, missing tag list or unreadable file exits of the main programs, log.Fatal branches of the iterators.")
 TRUSTED = ["Go runtime (scheduler, sync.Pool), the OS; the verif hooks pkg/obiseq/pool_verif.go (poison + event trace, traced headers kept alive) and pkg/obiiter/verif2_c05.go (random yields at Next/Push/worker loop)",
            "Python parsers of the commands' FASTQ/JSON-header and obicount output and of the generator's own records (reader normalisation: lower case, definition as annotation); renumbering of trace addresses by first appearance; packing of bytes / events into primitive 63-bit integers decoded by C05.Codec inside vm_compute (Coq primitive integers)",
-           "classification of race-detector reports by the file of the first obitools frame of each access (thorough tier)"]
+           "classification of race-detector reports by the file of the first obitools frame of each access (thorough tier)",
+           "round 3: the Python projection of an input record to what DataSummary.Update looks at (count, length, merged_sample, obiclean_status, sample, shape of every annotation value) and of the printed JSON summary to counter entries; gzip / sorting of FASTQ records used to bring -Z and --no-order outputs to a canonical form"]
 
 # quick tier: the pool traces of one command line per command (thorough: every command line, three configurations)
 QUICK_TRACED = ("obiconvert", "obiconvert-fasta2fastq", "obigrep", "obiannotate", "obicomplement", "obipairing", "obimultiplex-whole-noerr", "obipcr",
@@ -107,7 +108,80 @@ def gen_data(ctx, d, nrec):
             if i % 7 == 0:
                 ann["scalar_tag"] = "x%d" % (i % 4)
             U.write(">u%05d %s\n%s\n" % (i, json.dumps(ann, separators=(",", ":")), rseq(rng, 30)))
+    gen_glue_data(ctx, d, pf, pr)
     return pf, pr
+
+
+MUX_MODES = [("hamming", ["spacer,2", "matching,hamming"]), ("indel", ["spacer,2", "matching,indel"]),
+             ("delim", ["spacer,2", "tag_delimiter,a"]), ("rescue", ["spacer,2", "tag_delimiter,a", "tag_indels,1", "matching,indel"])]
+
+
+# minimised witness of a fixed defect (corpus): a valid 9-record FASTQ file whose quality lines contain double quotes; the format
+# guesser took it for CSV (its CSV heuristic was tried before the FASTQ one) and the records were lost. zlib + base64 of the file.
+WITNESS_QUOTED_FASTQ = (
+    "eNp1VGuTmzYU/e5fYQQYMEi8n+ZlA2tDpl+STDud7E4Hyxuys4EkmNh1dvzfK2FvtztNzBghriTuOfecm/aaZjrm9AngL9+7AQS6ArYPDRm1649EFbD/CgJQT7fTKb693U1vwbdbABTw4wcIPny4U5"
+    "7Odwro7sk2aBruebr/0t5Pd/cfH7qH4eFLNyVnTOqmGXCN8TDUdY2bhjzWDXnCuBmGMVbTeYNrMmvwQAN0PR7qiTwRVlYZmNBiBc7JJCRnnFgZMDECKDiePrdRYQiyAO0UKfrcYVXEhaUhbuLQ1Sbp"
+    "iNGaHHqI2r45Hev+ER1Pu+6x3R33h357bNvHoelwV/f9AQ3o0OI93g9D153w7oAftz3JoGJUBZoIFOFcYH02L5JY5YSciaWCzxyAVoCTxNJTVygRDCVcWXnhiiIUUt+8ZmC/YvlvQp2uOIS4FgRPoA"
+    "YBWUHIJ0R/A+efcWhPGtzUhCzK3FAPlETC2ECn+DKh8XEYScUj25RKwi+BYHFqphTLoEClHyRuwvnVLJ/n+VxlYpm9EWaSnLkSDxItFecuKkVGXzhAXnMSMK4YnBcMrgLuSbLgGYr2CorzLxSinvtv"
+    "f32+75rhEwgM0z1PcLPb9iTt9vFwhIfDvkftoWth19Y9JX53qvsj7A/dEaEd3p9IxfbbttvWbfNp2J4ggVIobLyex9E8ynlN4fkizUXdLL0ZlyJoLFOhyGDoOarAFdqcq2CieHk6KzlRZ/yVIV3RuA"
+    "TNcx3Okw6fevIV2MFuv8PbLTxguN2h3ZZ8j1mojscXcamgYJmGs5XklstFwsTXk7wXXjQCuG6/fqbk7DXwC/OcJzUeSzdQ2WN6EQ9gWq6GVpb8B2qDgRYTjw6pR2vUdAUeS0xeETlcao7xeNjFUdRr"
+    "ZMtortFZ9NyLmYarVDABlWfril0uVlwFNpxjRVwkVyiaqzd24MwjWyYyWJnicqFIVQQYyzS48CbeeDwUkqryxSRNZBSv/ciz2FXs6qaJQkaIRS5TLBeZbGhDZR2yJlMgfRNHdgQln9PSwOOcQJH85E"
+    "qd/0IdNF6LxXJ+xd5P7OFP4FuUv//z/XL9bo027z/8trn74907tIbozdvf4YaE3iwRgQ3cfOEKcqkBLVecUIxLK/YzNdKZZaYuHIuDGrjk5movuZnPOrfu/tciXY1omhqypryPBblMaRWpQ2va0mhz"
+    "G71IclBlw1aDWVSVqzJiXYAc8nGNV1XkcYtqFZi+OvMNNRZd/pqK/iqVF4WZ4L+JfSS+9JD9qjWfJ2NTpZ2Dtl3ahamOqJRoviREb9euO4rkkuvYqoexkdCR3uk7PCqI7iBrGjxCHsWJRx3SYyjCUt"
+    "JC3tEUQSAVB7GvLTVfNVCazHlGtcWMWWksA9nyRkpnelFmha7zHqrWlrbxIluwTDEt2RIYuXwj8rGUCIs8idKF7ReeKUplVXqhb5ZQKnzZXGahyk/+AX059E0=")
+WITNESS_QUOTED_IDS = ["r%05d" % i for i in range(363, 372)]
+
+
+def gen_glue_data(ctx, d, pf, pr):
+    """round 3: the inputs of the command-level glue. The same records as single.fastq presented in other ways (three files cut at
+    uneven places, gzip, an empty file), and reads whose sample tags carry errors (one substitution / deletion / insertion) between
+    delimiter nucleotides, for the hamming / indel / delimited / rescue tag matching of obimultiplex (CSV tag lists with @param lines)."""
+    import gzip
+    rng = ctx.rng
+    L = open(os.path.join(d, "single.fastq")).read().split("\n")
+    n = len(L) // 4
+    c1 = rng.randrange(1, max(2, n // 2))
+    c2 = rng.randrange(c1, n)
+    cuts = [0, c1, c2, n]
+    for i in range(3):
+        with open(os.path.join(d, "part%d.fastq" % i), "w") as f:
+            f.write("".join(x + "\n" for x in L[4 * cuts[i]:4 * cuts[i + 1]]))
+    with gzip.open(os.path.join(d, "single.fastq.gz"), "wb", compresslevel=1) as f:
+        f.write(open(os.path.join(d, "single.fastq"), "rb").read())
+    open(os.path.join(d, "empty.fastq"), "w").close()
+    with open(os.path.join(d, "one.fastq"), "w") as f:        # a single record, no newline after the quality line
+        f.write("@only {\"count\":3}\nacgtacgtac\n+\nIIIIIIIIII")
+    import base64, zlib
+    with open(os.path.join(d, "witness_quoted.fastq"), "wb") as f:
+        f.write(zlib.decompress(base64.b64decode(WITNESS_QUOTED_FASTQ)))
+    tags = ["cgtgtct", "gtctcgc", "tcgctgt", "ggtccgt", "ctgcctg", "tgtggtc"]
+    r3 = lambda k: "".join(rng.choice("cgt") for _ in range(k))
+
+    def mut(t):
+        x = rng.random()
+        if x < 0.6:
+            return t
+        i = rng.randrange(len(t))
+        if x < 0.85:
+            return t[:i] + rng.choice([c for c in "cgt" if c != t[i]]) + t[i + 1:]
+        if x < 0.93:
+            return t[:i] + t[i + 1:]
+        return t[:i] + rng.choice("cgt") + t[i:]
+    barcodes = [rseq(rng, rng.randrange(30, 90)) for _ in range(12)]
+    with open(os.path.join(d, "muxerr.fastq"), "w") as f:
+        for i in range(3000 if ctx.quick else 12000):
+            t = rng.choice(tags)
+            frag = r3(rng.randrange(0, 4)) + "aa" + mut(t) + "aa" + pf + rng.choice(barcodes) + rc(pr) + "tt" + rc(mut(t)) + "tt" + rc(r3(rng.randrange(0, 4)))
+            if rng.random() < 0.3:
+                frag = rc(frag)
+            f.write("@m%05d\n%s\n+\n%s\n" % (i, frag, "".join(chr(33 + rng.randrange(2, 41)) for _ in range(len(frag)))))
+    for name, params in MUX_MODES:
+        with open(os.path.join(d, "mux_%s.csv" % name), "w") as f:
+            for p_ in params:
+                f.write("@param,%s\n" % p_)
+            f.write("experiment,sample,sample_tag,forward_primer,reverse_primer\n")
+            for i, t in enumerate(tags):
+                f.write("exp,sample%d,%s,%s,%s\n" % (i, t, pf.upper(), pr.upper()))
 
 
 HET_SIZES = (150, 1000, 3000, 7000)
@@ -139,22 +213,94 @@ def command_lines(d, pf, pr):
         ("obisummary-het", ["obisummary", "--json-output", os.path.join(d, "het_3000.fasta")]),
         ("obisummary-rich", ["obisummary", "--json-output", os.path.join(d, "summary.fasta")]),
         ("obisummary-rich-yaml", ["obisummary", "--yaml-output", os.path.join(d, "summary.fasta")]),
-    ]
+    ] + glue_lines(d, pf, pr)
 
 
-def run_cmd(bindir, argv, maxcpu, batch, gomax, trace=None, timeout=120):
+# groups of command lines whose outputs (or parts of them) must be the SAME bytes: the command-level glue (several input files,
+# stdin, gzip input / output, -o, parallelism given through the environment, --save-discarded, paired files) must not change
+# what is computed. A third element of a command line is its specification:
+#   stdin   file given on standard input                 out    suffixes of the files the command writes ("{O}" in argv = their prefix)
+#   envpar  parallelism through OBIMAXCPU / OBIBATCHSIZE   post   canonical form compared: gunzip | sortfq (records as a multiset)
+#   same    {part: group}, part = "stdout" | a suffix | "stdout|sorted"
+GLUE_BASE = {"obiconvert": {"stdout": "convert", "stdout|sorted": "convert-sorted"}, "obigrep": {"stdout": "grep"},
+             "obicount": {"stdout": "count"}, "obisummary": {"stdout": "summary"}, "obicsv": {"stdout": "csv"},
+             "obimultiplex-whole-noerr": {"stdout": "mux-noerr"}, "obicomplement": {"stdout": "complement"}}
+
+
+def glue_lines(d, pf, pr):
+    j = lambda x: os.path.join(d, x)
+    s, parts = j("single.fastq"), [j("part%d.fastq" % i) for i in range(3)]
+    F, R = j("F.fastq"), j("R.fastq")
+    grep = ["obigrep", "-l", "90", "-s", "ac.t"]
+    mux = ["obimultiplex", "-t", j("ngsfilter.txt"), "-e", "2"]
+    pcr = ["obipcr", "--forward", pf, "--reverse", pr, "-e", "2"]
+    return [
+        ("obiconvert-multi", ["obiconvert"] + parts, dict(same={"stdout": "convert"})),
+        ("obiconvert-stdin", ["obiconvert"], dict(stdin=s, same={"stdout": "convert"})),
+        ("obiconvert-gz", ["obiconvert", s + ".gz"], dict(same={"stdout": "convert"})),
+        ("obiconvert-out", ["obiconvert", "-o", "{O}.fastq", s], dict(out=[".fastq"], same={".fastq": "convert"})),
+        ("obiconvert-Z", ["obiconvert", "-Z", s], dict(post="gunzip", same={"stdout": "convert"})),
+        ("obiconvert-env", ["obiconvert", s], dict(envpar=True, same={"stdout": "convert"})),
+        ("obiconvert-noorder", ["obiconvert", "--no-order"] + parts, dict(post="sortfq", same={"stdout": "convert-sorted"})),
+        ("obiconvert-solexa", ["obiconvert", "--solexa", s], {}),
+        ("obiconvert-empty", ["obiconvert", j("empty.fastq")], dict(empty_ok=True)),
+        ("obiconvert-one", ["obiconvert", j("one.fastq")], dict(empty_ok=True, judge="one-record")),
+        ("obicount-empty", ["obicount", j("empty.fastq")], dict(empty_ok=True, same={"stdout": "count-empty"})),
+        ("obicount-empty-stdin", ["obicount"], dict(stdin=j("empty.fastq"), empty_ok=True, same={"stdout": "count-empty"})),
+        ("obigrep-empty", grep + [j("empty.fastq")], dict(empty_ok=True)),
+        ("obiconvert-witness-quoted", ["obiconvert", j("witness_quoted.fastq")], dict(judge="witness-quoted")),
+        ("obiconvert-witness-quoted-3", ["obiconvert", j("part0.fastq"), j("witness_quoted.fastq"), j("part2.fastq")], dict(judge="witness-quoted-3")),
+        ("obiconvert-F", ["obiconvert", F], dict(same={"stdout": "convert-F"})),
+        ("obiconvert-R", ["obiconvert", R], dict(same={"stdout": "convert-R"})),
+        ("obiconvert-paired", ["obiconvert", "--paired-with", R, "-o", "{O}.fastq", F],
+         dict(out=["_R1.fastq", "_R2.fastq"], same={"_R1.fastq": "convert-F", "_R2.fastq": "convert-R"})),
+        ("obigrep-multi", grep + parts, dict(same={"stdout": "grep"})),
+        ("obigrep-inv", grep + ["-v", s], dict(same={"stdout": "grep-inv"})),
+        ("obigrep-divide", grep + ["--save-discarded", "{O}.fastq", s], dict(out=[".fastq"], same={"stdout": "grep", ".fastq": "grep-inv"})),
+        ("obigrep-paired", ["obigrep", "-l", "70", "--paired-mode", "xor", "--paired-with", R, "-o", "{O}.fastq", F],
+         dict(out=["_R1.fastq", "_R2.fastq"], judge="grep-paired-xor")),
+        ("obiannotate-paired", ["obiannotate", "--length", "--paired-with", R, "-o", "{O}.fastq", F], dict(out=["_R1.fastq", "_R2.fastq"])),
+        ("obiannotate-tags", ["obiannotate", "--rename-tag", "smp=sample", "--delete-tag", "w", "-S", "c2=annotations.count*2",
+                              "-S", "cmp=composition(sequence)", "-S", "g=gc(sequence)", s], {}),
+        ("obicomplement-assembled", ["obicomplement", j("assembled.fastq")], {}),
+        ("obicomplement-stdin-gz", ["obicomplement"], dict(stdin=s + ".gz", same={"stdout": "complement"})),
+        ("obicount-multi", ["obicount"] + parts, dict(same={"stdout": "count"})),
+        ("obisummary-multi", ["obisummary", "--json-output"] + parts, dict(same={"stdout": "summary"})),
+        ("obicsv-stdin", ["obicsv", "--ids", "--count", "-s", "-k", "sample"], dict(stdin=s, same={"stdout": "csv"})),
+        ("obimultiplex-unid", mux + ["-u", "{O}.fastq", s], dict(out=[".fastq"], same={"stdout": "mux-noerr"}, judge="mux-unidentified")),
+        ("obimultiplex-multi", mux + parts, dict(same={"stdout": "mux-noerr"})),
+        ("obipairing-opts", ["obipairing", "-F", F, "-R", R, "--min-overlap", "10", "--exact-mode", "--without-stat"], {}),
+        ("obipairing-abs", ["obipairing", "-F", F, "-R", R, "--fast-absolute", "--delta", "2"], {}),
+        ("obipcr-circular", pcr + ["--circular", "-L", "400", j("templates.fasta")], {}),
+        ("obipcr-flanks", pcr + ["--delta", "10", "--min-length", "40", "-L", "300", j("templates.fasta")], {}),
+        ("obipcr-fullflanks", pcr + ["--delta", "10", "--only-complete-flanking", "-L", "300", j("templates.fasta")], {}),
+    ] + [("obimultiplex-%s" % m, ["obimultiplex", "-t", j("mux_%s.csv" % m), "-e", "2", "--keep-errors", j("muxerr.fastq")], {}) for m, _ in MUX_MODES]
+
+
+def run_cmd(bindir, argv, maxcpu, batch, gomax, trace=None, timeout=120, stdin=None, envpar=False):
     env = dict(os.environ, GOMAXPROCS=str(gomax))
     env.pop("OBIMAXCPU", None); env.pop("OBIBATCHSIZE", None)
     if trace:
         env["VERIF_POOL_TRACE"] = trace
     # max-cpu 0 stands for --force-one-cpu (the only way to get a single worker: --max-cpu 1 is raised to 2)
     par = ["--max-cpu", str(maxcpu)] if maxcpu > 0 else ["--force-one-cpu"]
-    cmd = [os.path.join(bindir, argv[0])] + par + ["--batch-size", str(batch)] + argv[1:]
+    par += ["--batch-size", str(batch)]
+    if envpar:
+        # the same parallelism given through the environment (options.GetEnv of the option parser)
+        env["OBIBATCHSIZE"] = str(batch)
+        par = ["--force-one-cpu"] if maxcpu <= 0 else []
+        if maxcpu > 0:
+            env["OBIMAXCPU"] = str(maxcpu)
+    cmd = [os.path.join(bindir, argv[0])] + par + argv[1:]
     for attempt in range(3):
         try:
             if trace and attempt and os.path.exists(trace):
                 os.remove(trace)
-            p = subprocess.run(cmd, capture_output=True, timeout=timeout, env=env)
+            if stdin:
+                with open(stdin, "rb") as fin:
+                    p = subprocess.run(cmd, stdin=fin, capture_output=True, timeout=timeout, env=env)
+            else:
+                p = subprocess.run(cmd, stdin=subprocess.DEVNULL, capture_output=True, timeout=timeout, env=env)
         except subprocess.TimeoutExpired:
             return 124, b"", b"TIMEOUT"
         if p.returncode not in (-15, -9):       # SIGTERM / SIGKILL come from outside (another job's cleanup): run again
@@ -311,6 +457,12 @@ def gen_corr(ctx, path, n):
                           "b": rng.random() < 0.5, "neg": -rng.randrange(1, 1000), "big": 10 ** 11 + i, "e": "", "sp": "a b  c\\d \"q\"",
                           "seq_length": rng.randrange(0, 300), "zz": [[], {}]}[k]
             definition = rng.choice(["", "", "some definition %d" % i, "x"])
+            if recs and rng.random() < 0.04:
+                # the same content as the previous record under another identifier (identical bytes in pooled buffers)
+                _, sq0, q0, ann0 = recs[-1]
+                sq, q, L = sq0, q0, len(sq0)
+                ann = {k: v for k, v in ann0.items() if k != "definition"}
+                definition = ann0.get("definition", "")
             title = "r%05d" % i
             if ann or rng.random() < 0.5:
                 title += " " + json.dumps(ann, separators=(",", ":")) if ann else ""
@@ -344,6 +496,28 @@ def parse_fastq_out(data):
             return None
         out.append((ident, sq, q, ann))
     return out
+
+
+def parse_fasta_out(data):
+    """records written by a command (FASTA, JSON header): [(id, seq, None, annotation dict)] or None"""
+    out, cur = [], None
+    for l in data.decode("utf8", "replace").split("\n"):
+        if l.startswith(">"):
+            ident, _, rest = l[1:].partition(" ")
+            rest = rest.strip()
+            try:
+                ann = json.loads(rest) if rest else {}
+            except ValueError:
+                return None
+            if not isinstance(ann, dict):
+                return None
+            cur = [ident, "", None, ann]
+            out.append(cur)
+        elif l and cur is not None:
+            cur[1] += l
+        elif l:
+            return None
+    return [tuple(x) for x in out]
 
 
 def parse_csv_out(data, keys):
@@ -395,12 +569,15 @@ def py_cmd_f(c, r):
     if kind == "convert":
         return [r]
     if kind == "complement":
-        return [(ident, "".join(COMPL.get(x, "n") for x in reversed(sq)), q[::-1], ann)]
+        return [(ident, "".join(COMPL.get(x, "n") for x in reversed(sq)), q[::-1] if q is not None else None, ann)]
     if kind == "annotlen":
         return [(ident, sq, q, dict(ann, seq_length=len(sq)))]
     inv, lmin, lmax, cmin, cmax = c[1:]
     cnt = ann.get("count", 1)
     ok = (lmin <= 1 or len(sq) >= lmin) and (lmax == UNSET or len(sq) <= lmax) and (cmin <= 1 or cnt >= cmin) and (cmax == UNSET or cnt <= cmax)
+    if kind == "cond":
+        # MakeIConditionalWorker(predicate, ReverseComplement): the selected records are transformed, the others pass unchanged
+        return py_cmd_f(("complement",), r) if ok != inv else [r]
     return [r] if ok != inv else []
 
 
@@ -411,6 +588,8 @@ def coq_cmd(c):
         return "CComplement"
     if c[0] == "annotlen":
         return "CAnnotLength"
+    if c[0] == "cond":
+        return "(CCondComplement %s (%d)%%Z (%d)%%Z (%d)%%Z (%d)%%Z)" % ("true" if c[1] else "false", c[2], c[3], c[4], c[5])
     return "(CGrep %s (%d)%%Z (%d)%%Z (%d)%%Z (%d)%%Z)" % ("true" if c[1] else "false", c[2], c[3], c[4], c[5])
 
 
@@ -438,23 +617,45 @@ def prep_records(ctx, d):
     n = 400 if ctx.quick else 4000
     path = os.path.join(d, "corr.fastq")
     inp = gen_corr(ctx, path, n)
-    return dict(n=n, path=path, inp=inp, lines=corr_command_lines(ctx.rng))
+    # the same records presented as three files cut at random places (an empty one allowed) and gzipped
+    import gzip
+    L = open(path).read().split("\n")
+    c1 = ctx.rng.randrange(0, n + 1)
+    c2 = ctx.rng.randrange(c1, n + 1)
+    cuts = [0, c1, c2, n]
+    for i in range(3):
+        with open(os.path.join(d, "corr_p%d.fastq" % i), "w") as f:
+            f.write("".join(x + "\n" for x in L[4 * cuts[i]:4 * cuts[i + 1]]))
+    with gzip.open(path + ".gz", "wb", compresslevel=1) as f:
+        f.write(open(path, "rb").read())
+    # ... and as a FASTA file: the same records without qualities
+    with open(os.path.join(d, "corr.fasta"), "w") as f:
+        for k in range(0, 4 * n, 4):
+            f.write(">" + L[k][1:] + "\n" + L[k + 1] + "\n")
+    return dict(n=n, path=path, inp=inp, lines=corr_command_lines(ctx.rng), cuts=cuts)
 
 
 def records_correspondence(ctx, broken, bindir, d, prep):
     n, path, inp = prep["n"], prep["path"], prep["inp"]
     configs = [(1, 2000, 1), (8, 7, 16)] if ctx.quick else [(1, 2000, 1), (8, 7, 16), (3, 1, 4), (32, 100, 16)]
     terms, info, runs = [], [], 0
+    # how the input records reach the command: one file (every configuration), then three files / stdin / gzip (one configuration)
+    parts = [os.path.join(d, "corr_p%d.fastq" % i) for i in range(3)]
+    present = [("file", [path], None, cf) for cf in configs] + [("three-files", parts, None, (8, 7, 16)), ("stdin", [], path, (3, 1, 4)),
+                                                                  ("gzip", [path + ".gz"], None, (8, 7, 16)),
+                                                                  ("fasta", [os.path.join(d, "corr.fasta")], None, (8, 7, 16))]
+    ctx.cov["record_function_presentations"] = dict(three_files_cut_at=prep["cuts"], stdin=True, gzip=True, fasta_without_qualities=True)
+    inp_nq = [(i, sq, None, a) for (i, sq, _, a) in inp]
     for (exe, c, opts) in prep["lines"]:
         seen = set()
-        for (mc, bs, g) in configs:
-            code, out, errb = run_cmd(bindir, [exe] + opts + [path], mc, bs, g)
+        for (how, files, stdin, (mc, bs, g)) in present:
+            code, out, errb = run_cmd(bindir, [exe] + opts + files, mc, bs, g, stdin=stdin)
             runs += 1
             if code == 0 and out in seen:
                 continue            # byte-identical to an output already checked against the model
             seen.add(out)
             name = "c05_records_%s" % "_".join([exe] + [o.strip("-") for o in opts])
-            rp = dict(property="C05", kind="record-function", argv=[exe] + opts, max_cpu=mc, batch_size=bs, gomaxprocs=g, seed=ctx.seed,
+            rp = dict(property="C05", kind="record-function", argv=[exe] + opts, input=how, max_cpu=mc, batch_size=bs, gomaxprocs=g, seed=ctx.seed,
                       how_to_replay="corr.fastq is regenerated from the seed by tools/props/c05.py gen_corr")
             if code != 0:
                 ctx.violation(name + "_exit", dict(rp, exit=code, stderr=errb.decode("utf8", "replace")[-1500:]))
@@ -496,14 +697,14 @@ def records_correspondence(ctx, broken, bindir, d, prep):
                                                     ";\n ".join("[" + "; ".join(coq_val(v) for v in row) + "]" for row in got)))
                     info.append((name, rp))
                 continue
-            got = parse_fastq_out(out)
-            exp = [y for r in inp for y in py_cmd_f(c, r)]
+            got = parse_fasta_out(out) if how == "fasta" else parse_fastq_out(out)
+            exp = [y for r in (inp_nq if how == "fasta" else inp) for y in py_cmd_f(c, r)]
             if got != exp:
                 k = next((i for i, (x, y) in enumerate(zip(got or [], exp)) if x != y), min(len(got or []), len(exp)))
                 ctx.violation(name, dict(rp, first_differing_record=k, expected=exp[k:k + 1], implementation=(got or [])[k:k + 1],
                                          records_expected=len(exp), records_written=len(got) if got is not None else "unparsable output"))
             if got is not None:
-                terms.append("Map %s %s" % (coq_cmd(c), coq_recs(got)))
+                terms.append("%s %s %s" % ("MapNQ" if how == "fasta" else "Map", coq_cmd(c), coq_recs(got)))
                 info.append((name, rp))
     imports = ("From Coq Require Import NArith ZArith List Uint63.\nImport ListNotations.\nFrom OBI.C05 Require Import Records Codec.\n"
                "Local Open Scope uint63_scope.\nDefinition inp : list rec :=\n%s.\n" % coq_recs(inp))
@@ -517,6 +718,162 @@ def records_correspondence(ctx, broken, bindir, d, prep):
                 broken.append(dict(kind="correspondence", name="corr:C05/records/%s" % name, first_diverging_case=rp))
     ctx.cov["record_function_cases"] = len(terms)
     ctx.cov["record_function_records"] = n
+    return runs
+
+
+# ---------------------------------------------------------------------------------------------
+# obisummary: the WHOLE printed summary against (a) a direct Python oracle and (b) the Coq model of
+# DataSummary.Update / Add (C05/Summary.v: the one-pass summary of the input records, evaluated by vm_compute)
+def py_summary(recs):
+    """what obisummary must print for these records (id, seq, qual, annotations)"""
+    cnt = lambda a: a.get("count", 1) if isinstance(a.get("count", 1), int) and not isinstance(a.get("count", 1), bool) else 1
+    keys = {"scalar": {}, "map": {}, "vector": {}}
+    samples, svar, ssing, sbad = {}, {}, {}, {}
+    inc = lambda m, k, v=1: m.__setitem__(k, m.get(k, 0) + v)
+    nstatus = 0
+    for (_, sq, _, a) in recs:
+        if "merged_sample" in a:
+            st = a.get("obiclean_status")
+            st = st if isinstance(st, dict) and all(isinstance(x, str) for x in st.values()) else None
+            for k, v in a["merged_sample"].items():
+                inc(samples, k, v)
+                inc(svar, k)
+                if v == 1:
+                    inc(ssing, k)
+                if v > 1 and st is not None and st.get(k) == "i":
+                    inc(sbad, k)
+        elif "sample" in a:
+            inc(samples, a["sample"], cnt(a))
+            inc(svar, a["sample"])
+            if cnt(a) == 1:
+                inc(ssing, a["sample"])
+        nstatus += "obiclean_status" in a
+        for k, v in a.items():
+            inc(keys["map" if isinstance(v, dict) else "vector" if isinstance(v, list) else "scalar"], k)
+    out = {"count": {"variants": len(recs), "reads": sum(cnt(r[3]) for r in recs), "total_length": sum(len(r[1]) for r in recs)}}
+    if any(keys.values()):
+        out["annotations"] = {"scalar_attributes": len(keys["scalar"]), "map_attributes": len(keys["map"]), "vector_attributes": len(keys["vector"]),
+                              "keys": {k: v for k, v in keys.items() if v}}
+        if samples:
+            stats = {k: dict(reads=v, variants=svar.get(k, 0), singletons=ssing.get(k, 0)) for k, v in samples.items()}
+            if nstatus == len(recs):
+                for k in stats:
+                    stats[k]["obiclean_bad"] = sbad.get(k, 0)
+            out["samples"] = {"sample_count": len(samples), "sample_stats": stats}
+    return out
+
+
+class CoqNames:
+    """byte strings defined once per generated file and referred to by name"""
+    def __init__(self):
+        self.names, self.defs = {}, []
+
+    def __call__(self, text):
+        if text not in self.names:
+            self.names[text] = "k%d" % len(self.names)
+            self.defs.append("Definition %s := %s." % (self.names[text], coq_bytes(text)))
+        return self.names[text]
+
+
+def coq_srec(r, nm):
+    _, sq, _, a = r
+    c = a.get("count", 1)
+    c = c if isinstance(c, int) and not isinstance(c, bool) else 1
+    ms, st = a.get("merged_sample"), a.get("obiclean_status")
+    merged = "None" if ms is None else "(Some [%s])" % "; ".join("(%s, (%d)%%Z)" % (nm(k), v) for k, v in ms.items())
+    status = "(Some [%s])" % "; ".join("(%s, %s)" % (nm(k), nm(v)) for k, v in st.items()) if isinstance(st, dict) and all(isinstance(x, str) for x in st.values()) else "None"
+    sample = "(Some %s)" % nm(a["sample"]) if isinstance(a.get("sample"), str) else "None"
+    tags = "; ".join("(%s, %s)" % (nm(k), "TMap" if isinstance(v, dict) else "TVector" if isinstance(v, list) else "TScalar") for k, v in sorted(a.items()))
+    return "mksrec (%d)%%Z (%d)%%Z %s %s %s %s %s [%s]" % (c, len(sq), merged, status, sample, "true" if "obiclean_status" in a else "false",
+                                                           "true" if "obiclean_weight" in a else "false", tags)
+
+
+def coq_scase(js, nm):
+    """the printed summary as counter entries (kinds of C05/Summary.v)"""
+    E = [("K 0 []", js["count"]["reads"]), ("K 1 []", js["count"]["variants"]), ("K 2 []", js["count"]["total_length"])]
+    for kind, sec in ((6, "scalar"), (7, "map"), (8, "vector")):
+        for k, v in sorted(js.get("annotations", {}).get("keys", {}).get(sec, {}).items()):
+            E.append(("K %d %s" % (kind, nm(k)), v))
+    bad = False
+    for k, stt in sorted(js.get("samples", {}).get("sample_stats", {}).items()):
+        for kind, f in ((9, "reads"), (10, "variants"), (11, "singletons"), (12, "obiclean_bad")):
+            if f in stt:
+                E.append(("K %d %s" % (kind, nm(k)), stt[f]))
+                bad = bad or kind == 12
+    return "SCase %s [%s]" % ("true" if bad else "false", "; ".join("(%s, (%d)%%Z)" % e for e in E))
+
+
+def read_own_fasta(path, n):
+    """the first n records of a FASTA file written by gen_data (one title line with a JSON map, one sequence line)"""
+    recs = []
+    with open(path) as f:
+        for title, sq in itertools.islice(zip(f, f), n):
+            ident, _, rest = title[1:].rstrip("\n").partition(" ")
+            recs.append((ident, sq.strip(), None, json.loads(rest) if rest else {}))
+    return recs
+
+
+def summary_correspondence(ctx, broken, bindir, d, prep):
+    nrich = 600 if ctx.quick else 4000
+    rich = read_own_fasta(os.path.join(d, "summary.fasta"), nrich)
+    # one record without obiclean_status in a copy of the rich set: then the obiclean_bad statistics must NOT be printed
+    rich_path, nost_path = os.path.join(d, "sumcorr.fasta"), os.path.join(d, "sumcorr_nostatus.fasta")
+    nost = [(i, sq, q, {k: v for k, v in a.items() if k != "obiclean_status" or j != nrich // 2}) for j, (i, sq, q, a) in enumerate(rich)]
+    for path, recs in ((rich_path, rich), (nost_path, nost)):
+        with open(path, "w") as f:
+            for (i, sq, _, a) in recs:
+                f.write(">%s %s\n%s\n" % (i, json.dumps(a, separators=(",", ":")), sq))
+    configs = [(0, 2000, 1), (8, 7, 16), (3, 1, 4)] if ctx.quick else [(0, 2000, 1), (8, 7, 16), (3, 1, 4), (32, 100, 16), (2, 50, 2)]
+    runs, nterms = 0, 0
+    for label, path, recs in (("rich", rich_path, rich), ("nostatus", nost_path, nost), ("mixed", prep["path"], prep["inp"])):
+        exp = py_summary(recs)
+        nm, terms, infos, seen = CoqNames(), [], [], set()
+        for (mc, bs, g) in configs:
+            code, out, errb = run_cmd(bindir, ["obisummary", "--json-output", path], mc, bs, g)
+            runs += 1
+            name = "c05_summary_%s" % label
+            rp = dict(property="C05", kind="obisummary-whole-output", input=label, records=len(recs), argv=["obisummary", "--json-output"], max_cpu=mc, batch_size=bs,
+                      gomaxprocs=g, seed=ctx.seed, how_to_replay="the input is regenerated from the seed by tools/props/c05.py (gen_data / gen_corr, summary_correspondence)")
+            if code != 0:
+                ctx.violation(name + "_exit", dict(rp, exit=code, stderr=errb.decode("utf8", "replace")[-1500:]))
+                continue
+            if out in seen:
+                continue
+            seen.add(out)
+            try:
+                js = json.loads(out)
+            except ValueError:
+                js = None
+            if js != exp:
+                diff = None
+                if isinstance(js, dict):
+                    flat = lambda x, pre="": {pre: x} if not isinstance(x, dict) else {k2: v2 for k, v in x.items() for k2, v2 in flat(v, pre + "/" + k).items()}
+                    a, b = flat(js), flat(exp)
+                    diff = {k: dict(implementation=a.get(k), expected=b.get(k)) for k in sorted(set(a) | set(b)) if a.get(k) != b.get(k)}
+                    diff = dict(list(diff.items())[:8])
+                ctx.violation(name, dict(rp, differences=diff if diff is not None else "unparsable output", implementation=out.decode("utf8", "replace")[:300] if js is None else None))
+            if isinstance(js, dict) and isinstance(js.get("count"), dict):
+                try:
+                    terms.append(coq_scase(js, nm))
+                    infos.append((name, rp))
+                except (KeyError, TypeError, AttributeError):
+                    pass
+        if not terms:
+            continue
+        recterms = [coq_srec(r, nm) for r in recs]
+        imports = ("From Coq Require Import NArith ZArith List Uint63.\nImport ListNotations.\nFrom OBI.C05 Require Import Records Summary Codec.\n"
+                   "Local Open Scope uint63_scope.\n" + "\n".join(nm.defs) + "\nDefinition inp : list srec :=\n[" + ";\n ".join(recterms) + "].\n")
+        bad, err = correspond_retry(ctx, "summary_" + label, imports, terms, "summary_mismatches inp")
+        nterms += len(terms)
+        if bad is None:
+            broken.append(dict(kind="correspondence", detail=err))
+        else:
+            for i in bad:
+                name, rp = infos[i]
+                if not os.path.exists(ctx.replay_path(name)):
+                    broken.append(dict(kind="correspondence", name="corr:C05/summary/%s" % name, first_diverging_case=rp))
+    ctx.cov["summary_cases_through_model"] = nterms
+    ctx.cov["summary_records"] = dict(rich=len(rich), nostatus=len(nost), mixed=len(prep["inp"]))
     return runs
 
 
@@ -556,6 +913,30 @@ def prep_inproc(ctx, d, prep):
         if c[0] == "grep":
             case.update(inv=c[1], lmin=c[2], lmax=c[3], cmin=c[4], cmax=c[5])
         cases.append((case, c))
+    # round 3: the library stages no command line of the grid reaches in that form (DivideOn behind a worker pool, Concat / Pool of
+    # several readers, FilterEmpty, MakeIConditionalWorker, WorkerPipe, full-file batches = Load, Load + IBatchOver)
+    greps = [c for (_, c, _) in prep["lines"] if c[0] == "grep"]
+    ncfg2 = 16 if ctx.quick else 100
+    for kind in ("divide", "filterempty", "condworker", "concat", "pool", "fullfile", "batchover", "workerpipe"):
+        gp = rng.choice(greps)
+        n = len(inp)
+        cuts = sorted(rng.choice([0, 0, 1, n // 3, n // 2, n - 1, n, rng.randrange(n + 1)]) for _ in range(rng.choice([1, 2, 2, 3])))
+        case = dict(cmd=kind, input=text, inv=False, lmin=1, lmax=UNSET, cmin=1, cmax=UNSET, keep=2, configs=rand_configs(rng, ncfg2, len(inp), repeat))
+        if kind in ("divide", "filterempty", "condworker"):
+            case.update(inv=gp[1], lmin=gp[2], lmax=gp[3], cmin=gp[4], cmax=gp[5])
+            c = {"divide": ("divide",) + gp[1:], "filterempty": gp, "condworker": ("cond",) + gp[1:]}[kind]
+        elif kind in ("concat", "pool"):
+            case["cuts"] = cuts
+            c = ("convert",)
+        else:
+            c = ("annotlen",) if kind == "workerpipe" else ("convert",)
+        cases.append((case, c))
+    # the barcode extraction of obimultiplex on reads whose tags carry errors (Hamming / Levenshtein / rescue code paths), one library
+    # object shared by up to 32 workers: determinism only (C12 owns the assignment itself)
+    nmux = 1500 if ctx.quick else 6000
+    for mode in (("indel", "rescue") if ctx.quick else [m_ for m_, _ in MUX_MODES]):
+        cases.append((dict(cmd="multiplex", input=fastq_head(os.path.join(d, "muxerr.fastq"), nmux), ngs=open(os.path.join(d, "mux_%s.csv" % mode)).read(),
+                           keep=2, configs=rand_configs(rng, ncfg2 + 8, nmux, repeat)), ("multiplex", mode)))
     npairs = 250 if ctx.quick else 2500
     cases.append((dict(cmd="pairing", input=fastq_head(os.path.join(d, "F.fastq"), npairs), mates=fastq_head(os.path.join(d, "R.fastq"), npairs),
                        lmin=10, keep=2, configs=rand_configs(rng, ncfg, npairs, repeat)), ("pairing",)))
@@ -565,7 +946,7 @@ def prep_inproc(ctx, d, prep):
 def inproc_judge(ctx, case, c, o, inp):
     """verdict on one observation of vh c05"""
     import base64
-    name = "c05_inproc_%s" % case["cmd"]
+    name = "c05_inproc_%s" % "_".join([case["cmd"]] + [str(x) for x in c[1:2] if case["cmd"] == "multiplex"])
     rp = dict(property="C05", kind="in-process-pipeline", seed=ctx.seed, case=case,
               how_to_replay="python3 tools/check.py C05 --replay <this file> (runs the case through vh c05 again)")
     if o.get("kind") != "ok":
@@ -586,8 +967,22 @@ def inproc_judge(ctx, case, c, o, inp):
                                            line_b=b[k].decode("utf8", "replace")[:400] if k < len(b) else None))
         return
     data = base64.b64decode(outs[0].get("bytes", ""))   # omitempty: an empty output has no field
-    if c[0] == "pairing":
+    if c[0] in ("pairing", "multiplex"):
         return
+    if c[0] == "divide":
+        # two streams: the selected records, then the discarded ones
+        yes, sep, no = data.partition(b"\x00DISCARDED\x00\n")
+        terms = []
+        for side, part, cc in (("selected", yes, ("grep",) + c[1:]), ("discarded", no, ("grep", not c[1]) + c[2:])):
+            got = parse_fastq_out(part)
+            exp = [y for r in inp for y in py_cmd_f(cc, r)]
+            if got != exp or not sep:
+                k = next((i for i, (x, y) in enumerate(zip(got or [], exp)) if x != y), min(len(got or []), len(exp)))
+                ctx.violation(name + "_records", dict(rp, stream=side, first_differing_record=k, expected=exp[k:k + 1], implementation=(got or [])[k:k + 1],
+                                                      records_expected=len(exp), records_written=len(got) if got is not None else "unparsable output"))
+                return
+            terms.append("Map %s %s" % (coq_cmd(cc), coq_recs(got)))
+        return terms
     if c[0] == "count":
         exp = "entites,n\nvariants,%d\nreads,%d\nsymbols,%d\n" % (len(inp), sum(r[3].get("count", 1) for r in inp), sum(len(r[1]) for r in inp))
         if data.decode() != exp:
@@ -599,6 +994,11 @@ def inproc_judge(ctx, case, c, o, inp):
         k = next((i for i, (x, y) in enumerate(zip(got or [], exp)) if x != y), min(len(got or []), len(exp)))
         ctx.violation(name + "_records", dict(rp, first_differing_record=k, expected=exp[k:k + 1], implementation=(got or [])[k:k + 1],
                                               records_expected=len(exp), records_written=len(got) if got is not None else "unparsable output"))
+    elif case["cmd"] in STAGE_KINDS:
+        return ["Map %s %s" % (coq_cmd(c), coq_recs(got))]
+
+
+STAGE_KINDS = ("divide", "filterempty", "condworker", "concat", "pool", "fullfile", "batchover", "workerpipe")
 
 
 def inprocess_exploration(ctx, broken, d, prep2):
@@ -610,14 +1010,29 @@ def inprocess_exploration(ctx, broken, d, prep2):
         return ctx.vh_robust("c05", [case], timeout=600 if ctx.quick else 6000)[0]
     with ThreadPoolExecutor(max_workers=3) as ex:
         obs = list(ex.map(one, cases))
-    runs, yields = 0, 0
+    runs, yields, terms, tinfo = 0, 0, [], []
     for (case, c), o in zip(cases, obs):
         if o.get("kind") == "crash":
             ctx.violation("c05_inproc_%s_crash" % case["cmd"], dict(property="C05", kind="in-process-pipeline-crashed", seed=ctx.seed, case=case, implementation=o))
             continue
         runs += o.get("runs", 0)
         yields += o.get("yields", 0)
-        inproc_judge(ctx, case, c, o, inp)
+        for t in inproc_judge(ctx, case, c, o, inp) or []:
+            terms.append(t)
+            tinfo.append(case)
+    # the outputs of the library stages through the Coq model of the per-record functions (same input records as the command lines)
+    if terms:
+        imports = ("From Coq Require Import NArith ZArith List Uint63.\nImport ListNotations.\nFrom OBI.C05 Require Import Records Codec.\n"
+                   "Local Open Scope uint63_scope.\nDefinition inp : list rec :=\n%s.\n" % coq_recs(inp))
+        bad, err = correspond_retry(ctx, "stages", imports, terms, "cmd_mismatches inp")
+        if bad is None:
+            broken.append(dict(kind="correspondence", detail=err))
+        else:
+            for i in bad:
+                case = tinfo[i]
+                broken.append(dict(kind="correspondence", name="corr:C05/stage/%s" % case["cmd"],
+                                   first_diverging_case=dict(property="C05", kind="in-process-pipeline", seed=ctx.seed, case=case)))
+    ctx.cov["inprocess_stage_outputs_through_model"] = len(terms)
     ctx.cov["inprocess_pipeline_runs"] = runs
     ctx.cov["inprocess_yields_injected"] = yields
     ctx.cov["inprocess_cases"] = [dict(cmd=case["cmd"], configs=len(case["configs"])) for case, _ in cases]
@@ -712,6 +1127,110 @@ def json_first_use(ctx, n, kinds=("obi", "json", "format"), goroutines=16):
     return total
 
 
+GLUE_KEEP = ("obimultiplex-whole",)
+
+
+def sort_fastq(data):
+    L = data.split(b"\n")
+    if L and L[-1] == b"":
+        L.pop()
+    return b"".join(sorted(b"\n".join(L[k:k + 4]) + b"\n" for k in range(0, len(L), 4)))
+
+
+def collect_parts(so, prefix, spec):
+    """the output of one run as named parts (stdout + the files the command wrote, read and removed), in canonical form"""
+    import gzip
+    parts, missing = {"stdout": so}, []
+    for suf in spec.get("out", []):
+        path = prefix + suf
+        if not os.path.exists(path):
+            missing.append(suf)
+            continue
+        with open(path, "rb") as f:
+            parts[suf] = f.read()
+        os.remove(path)
+    if spec.get("post") == "gunzip":
+        try:
+            parts = {k: (gzip.decompress(v) if v else v) for k, v in parts.items()}
+        except (OSError, EOFError, ValueError):
+            parts = {k: b"NOT-GZIP:" + v for k, v in parts.items()}
+    if spec.get("post") == "sortfq":
+        parts = {k: sort_fastq(v) for k, v in parts.items()}
+    return parts, missing
+
+
+def glue_judge(ctx, lines, kept, d):
+    """verdicts that span command lines: the members of a group wrote the same bytes; direct oracles of the paired / divided outputs"""
+    groups = {}
+    for la in lines:
+        name, argv = la[0], la[1]
+        spec = dict(la[2]) if len(la) > 2 else {}
+        same = spec.get("same") or GLUE_BASE.get(name) or {}
+        if name not in kept:
+            continue            # that line already has a violation of its own
+        for part, g in same.items():
+            data = sort_fastq(kept[name]["stdout"]) if part == "stdout|sorted" else kept[name].get(part)
+            groups.setdefault(g, []).append((name, argv, part, data))
+    checked = 0
+    for g, members in sorted(groups.items()):
+        n0, argv0, part0, ref = members[0]
+        for (name, argv, part, data) in members[1:]:
+            checked += 1
+            if data != ref:
+                a, b = (ref or b"").split(b"\n"), (data or b"").split(b"\n")
+                k = next((i for i, (x, y) in enumerate(zip(a, b)) if x != y), min(len(a), len(b)))
+                ctx.violation("c05_%s_glue" % name, dict(property="C05", kind="same-records-presented-differently-give-different-output", group=g, seed=ctx.seed,
+                              argv_a=argv0, part_a=part0, argv_b=argv, part_b=part, first_diff_line=k, lines_a=len(a), lines_b=len(b),
+                              line_a=a[k].decode("utf8", "replace")[:400] if k < len(a) else None,
+                              line_b=b[k].decode("utf8", "replace")[:400] if k < len(b) else None,
+                              note="the two command lines read the same records (one file / several files / stdin / gzip / paired) or write them elsewhere "
+                                   "(-o, -Z, --save-discarded, environment instead of options): the bytes must be the same",
+                              how_to_replay="data set regenerated from the seed by tools/props/c05.py gen_data; run both command lines with --max-cpu 1 --batch-size 2000"))
+    ctx.cov["glue_equalities_checked"] = checked
+    # the witness of the format-guesser defect: all its records, alone and as the middle one of three files
+    fq_ids = lambda data: [l.split()[0][1:] for l in data.decode("utf8", "replace").split("\n")[0::4] if l]
+    for name, lo, hi in (("obiconvert-witness-quoted", None, None), ("obiconvert-witness-quoted-3", "part0.fastq", "part2.fastq")):
+        if name in kept:
+            exp = list(WITNESS_QUOTED_IDS)
+            if lo:
+                exp = fq_ids(open(os.path.join(d, lo), "rb").read()) + exp + fq_ids(open(os.path.join(d, hi), "rb").read())
+            got = fq_ids(kept[name]["stdout"])
+            if got != exp:
+                k = next((i for i, (x, y) in enumerate(zip(got, exp)) if x != y), min(len(got), len(exp)))
+                ctx.violation("c05_%s_records" % name, dict(property="C05", kind="records-of-a-valid-fastq-file-lost", seed=ctx.seed, records_expected=len(exp), records_written=len(got),
+                              first_difference_at=k, expected=exp[k:k + 2], implementation=got[k:k + 2],
+                              note="witness_quoted.fastq (tools/props/c05.py WITNESS_QUOTED_FASTQ) is a valid FASTQ file with double quotes in its quality lines"))
+    if "obiconvert-one" in kept and kept["obiconvert-one"]["stdout"] != b'@only {"count":3}\nacgtacgtac\n+\nIIIIIIIIII\n':
+        ctx.violation("c05_obiconvert-one_records", dict(property="C05", kind="single-record-file", seed=ctx.seed, expected='@only {"count":3} / acgtacgtac / + / IIIIIIIIII',
+                                                          implementation=kept["obiconvert-one"]["stdout"].decode("utf8", "replace")[:300]))
+    # obigrep on paired files, --paired-mode xor, -l 70: exactly the pairs with one mate of >= 70 nt, both files in step
+    if "obigrep-paired" in kept:
+        ids = lambda data: [l.split()[0][1:] for l in data.decode("utf8", "replace").split("\n")[0::4] if l]
+        def lens(path):
+            L = open(path).read().split("\n")
+            return [(L[k].split()[0][1:], len(L[k + 1])) for k in range(0, len(L) - 3, 4)]
+        lf, lr = lens(os.path.join(d, "F.fastq")), lens(os.path.join(d, "R.fastq"))
+        exp = [a[0] for a, b in zip(lf, lr) if (a[1] >= 70) != (b[1] >= 70)]
+        got1, got2 = ids(kept["obigrep-paired"]["_R1.fastq"]), ids(kept["obigrep-paired"]["_R2.fastq"])
+        if got1 != exp or got2 != exp:
+            k = next((i for i, (x, y) in enumerate(zip(got1, exp)) if x != y), min(len(got1), len(exp)))
+            ctx.violation("c05_obigrep-paired_records", dict(property="C05", kind="paired-selection", seed=ctx.seed, expected_pairs=len(exp), written_R1=len(got1), written_R2=len(got2),
+                          first_differing_pair=k, expected=exp[k:k + 2], implementation=got1[k:k + 2], mates_in_step=got1 == got2))
+        ctx.cov["paired_grep_pairs_selected"] = len(exp)
+    # obimultiplex -u: the identified records on stdout, the others in the file; together = what --keep-errors writes, in order
+    if "obimultiplex-unid" in kept and "obimultiplex-whole" in kept:
+        recs = lambda data: [b"\n".join(x) for x in zip(*[iter(data.split(b"\n"))] * 4)]
+        allr = recs(kept["obimultiplex-whole"]["stdout"])
+        good, bad = recs(kept["obimultiplex-unid"]["stdout"]), recs(kept["obimultiplex-unid"][".fastq"])
+        iserr = lambda r: b'"obimultiplex_error"' in r
+        if good != [r for r in allr if not iserr(r)] or bad != [r for r in allr if iserr(r)]:
+            ctx.violation("c05_obimultiplex-unid_records", dict(property="C05", kind="divided-output", seed=ctx.seed, records_all=len(allr), identified_written=len(good),
+                          unidentified_written=len(bad), expected_identified=len([r for r in allr if not iserr(r)]),
+                          note="obimultiplex -u FILE must write the records without obimultiplex_error on stdout and the others to FILE, both in input order "
+                               "(= the output of --keep-errors split on that attribute)"))
+        ctx.cov["divided_records"] = dict(identified=len(good), unidentified=len(bad))
+
+
 def run(ctx, broken):
     d = os.path.join(vlib.BUILD, "c05_data_%d" % os.getpid())
     shutil.rmtree(d, ignore_errors=True)
@@ -767,56 +1286,82 @@ def _run(ctx, broken, d):
     traced_cfg = [grid[4]] if ctx.quick else [grid[1], grid[7], grid[40]]
 
     def grid_line(la):
-        name, argv = la
-        ref, n, nt, trs = None, 0, set(), []
-        for (c, b, g) in grid:
-            for rep in range(reps * (CHEAP_REPS if "-het" in name or "-auto-" in name else 1)):
+        name, argv = la[0], la[1]
+        spec = dict(la[2]) if len(la) > 2 else {}
+        if name in GLUE_BASE:
+            spec.setdefault("same", GLUE_BASE[name])
+        prefix = os.path.join(d, "out_" + name)
+        ref, n, nt, trs, parts_ref = None, 0, set(), [], None
+        # the glue lines (their core is already walked over the whole grid by the base lines) run once per configuration, and in the
+        # quick tier on 5 configurations
+        light = ctx.quick and len(la) > 2
+        for (c, b, g) in (grid[0:1] + grid[3:5] + grid[6:7] + grid[8:9] if light else grid):
+            for rep in range(1 if len(la) > 2 else reps * (CHEAP_REPS if "-het" in name or "-auto-" in name else 1)):
                 tr = None
                 if rep == 0 and (c, b, g) in traced_cfg and (not ctx.quick or name in QUICK_TRACED):
                     tr = os.path.join(d, "trace_%s_%d_%d_%d.txt" % (name, c, b, g))
-                code, out, errb = run_cmd(bindir, argv, c, b, g, trace=tr)
+                code, so, errb = run_cmd(bindir, [x.replace("{O}", prefix) for x in argv], c, b, g, trace=tr, stdin=spec.get("stdin"), envpar=spec.get("envpar", False))
                 n += 1
+                rp = dict(property="C05", argv=argv, max_cpu=c, batch_size=b, gomaxprocs=g, seed=ctx.seed,
+                          **({"stdin": spec["stdin"]} if spec.get("stdin") else {}), **({"parallelism_through": "OBIMAXCPU / OBIBATCHSIZE"} if spec.get("envpar") else {}))
+                if code != 0:
+                    ctx.violation("c05_%s_exit" % name, dict(rp, kind="command-failed", exit=code, stderr=errb.decode("utf8", "replace")[-1500:]))
+                    return n, nt, trs, None
+                parts, missing = collect_parts(so, prefix, spec)
+                if missing:
+                    ctx.violation("c05_%s_nofile" % name, dict(rp, kind="output-file-not-written", missing=missing))
+                    return n, nt, trs, None
+                out = b"".join(b"\x00PART " + k.encode() + b"\x00" + v for k, v in sorted(parts.items())) if len(parts) > 1 else parts["stdout"]
                 key = (code, hashlib.sha256(out).hexdigest())
                 if len(out) > 200:
                     nt.add((name, c, b, g))
                 if tr and os.path.exists(tr):
                     trs.append((name, c, b, g, tr))
-                if code != 0:
-                    ctx.violation("c05_%s_exit" % name, dict(property="C05", kind="command-failed", argv=argv, max_cpu=c, batch_size=b, gomaxprocs=g,
-                                                             exit=code, stderr=errb.decode("utf8", "replace")[-1500:], seed=ctx.seed))
-                    return n, nt, trs
                 if b"\xdb" in out:
-                    ctx.violation("c05_%s_poison" % name, dict(property="C05", kind="recycled-buffer-in-output", argv=argv, max_cpu=c, batch_size=b,
-                                                               gomaxprocs=g, seed=ctx.seed, note="poison byte 0xDB of a recycled buffer reached the output"))
-                    return n, nt, trs
+                    ctx.violation("c05_%s_poison" % name, dict(rp, kind="recycled-buffer-in-output", note="poison byte 0xDB of a recycled buffer reached the output"))
+                    return n, nt, trs, None
                 if ref is None:
                     ref = (key, (c, b, g), out)
+                    parts_ref = parts
+                    if len(out) == 0 and not spec.get("empty_ok"):
+                        ctx.violation("c05_%s_trivial" % name, dict(rp, kind="command-line-of-the-check-produces-nothing", output=out.decode("utf8", "replace"),
+                                                                     stderr=errb.decode("utf8", "replace")[-800:]))
+                        return n, nt, trs, None
                 elif key != ref[0]:
                     # first differing line
                     la_, lb = ref[2].split(b"\n"), out.split(b"\n")
                     k = next((i for i, (x, y) in enumerate(zip(la_, lb)) if x != y), min(len(la_), len(lb)))
-                    ctx.violation("c05_%s_diff" % name, dict(property="C05", kind="output-depends-on-configuration", argv=argv,
+                    ctx.violation("c05_%s_diff" % name, dict(rp, kind="output-depends-on-configuration",
                                   config_a=dict(max_cpu=ref[1][0], batch_size=ref[1][1], gomaxprocs=ref[1][2]),
-                                  config_b=dict(max_cpu=c, batch_size=b, gomaxprocs=g), seed=ctx.seed, first_diff_line=k,
+                                  config_b=dict(max_cpu=c, batch_size=b, gomaxprocs=g), first_diff_line=k,
                                   line_a=la_[k:k + 1][0].decode("utf8", "replace")[:400] if k < len(la_) else None,
                                   line_b=lb[k:k + 1][0].decode("utf8", "replace")[:400] if k < len(lb) else None,
                                   how_to_replay="data set regenerated from seed by tools/props/c05.py gen_data; run both configurations and compare"))
-                    return n, nt, trs
-        return n, nt, trs
+                    return n, nt, trs, None
+        keep = parts_ref if (spec.get("same") or spec.get("judge") or name in GLUE_KEEP) else None
+        return n, nt, trs, keep
 
     # the command lines run 4 at a time (each one walks its grid sequentially and stops at its first violation)
+    fut_inproc = pool.submit(inprocess_exploration, ctx, broken, d, prep2)     # the longest single job: started first
+    fut_sum = pool.submit(summary_correspondence, ctx, broken, bindir, d, prep)
     futs = [(la[0], pool.submit(grid_line, la)) for la in lines]
-    fut_inproc = pool.submit(inprocess_exploration, ctx, broken, d, prep2)
     fut_json = pool.submit(json_first_use, ctx, 120 if ctx.quick else 8000)
+    glue_parts = {}
     for name, fu in futs:
-        n, nt, trs = fu.result()
+        n, nt, trs, kept = fu.result()
+        if kept is not None:
+            glue_parts[name] = kept
         progress("grid line %s done (%d runs)" % (name, n))
         runs += n
         dist[name] = n
         nontrivial |= nt
         traces += trs
+    glue_judge(ctx, lines, glue_parts, d)
+    glue_parts.clear()
     runs += fut_rec.result()
     progress("records correspondence done")
+    runs += fut_sum.result()
+    progress("summary correspondence done")
     inproc_runs = fut_inproc.result()
     progress("in-process exploration done")
     ctx.cov["json_first_use_trials"] = fut_json.result()
@@ -858,9 +1403,16 @@ def _run(ctx, broken, d):
             broken.append(dict(kind="command-build-race", detail=err))
         else:
             counts = {}
-            for name, argv in lines:
+            for la in lines:
+                name, argv = la[0], la[1]
+                spec = la[2] if len(la) > 2 else {}
+                prefix = os.path.join(d, "race_out_" + name)
                 for (c, b, g) in [(8, 7, 16), (4, 1, 4)]:
-                    code, out, errb = run_cmd(race_dir, argv, c, b, g, timeout=900)
+                    code, out, errb = run_cmd(race_dir, [x.replace("{O}", prefix) for x in argv], c, b, g, timeout=900,
+                                              stdin=spec.get("stdin"), envpar=spec.get("envpar", False))
+                    for suf in spec.get("out", []):
+                        if os.path.exists(prefix + suf):
+                            os.remove(prefix + suf)
                     runs += 1
                     for rep_ in re.split(r"={18}\n", errb.decode("utf8", "replace")):
                         if "DATA RACE" not in rep_:
@@ -883,6 +1435,16 @@ def _run(ctx, broken, d):
     ctx.cov["rule"] = "one execution = (command line, max-cpu, batch-size, GOMAXPROCS, repetition) on a data set generated from the seed; non-trivial = output > 200 bytes; distinct = distinct (command line, configuration)"
     ctx.cov["distribution"] = dist
     ctx.cov["grid"] = [dict(max_cpu=c, batch_size=b, gomaxprocs=g) for (c, b, g) in grid]
+    inp = prep["inp"]
+    ctx.cov["input_classes"] = dict(
+        correspondence_records=len(inp), iupac_or_gap=sum(1 for r in inp if set(r[1]) - set("acgt")), bracketed=sum(1 for r in inp if "[" in r[1]),
+        length_1_or_2=sum(1 for r in inp if len(r[1]) <= 2), count_zero_or_negative=sum(1 for r in inp if isinstance(r[3].get("count"), int) and r[3]["count"] <= 0),
+        already_has_seq_length=sum(1 for r in inp if "seq_length" in r[3]), same_content_as_previous=sum(1 for a, b in zip(inp, inp[1:]) if a[1:3] == b[1:3]),
+        without_annotation=sum(1 for r in inp if not r[3]), presentations=["one file", "three files (random cuts, empty parts possible)", "stdin", "gzip", "FASTA (no qualities)"],
+        grid_files=["single.fastq (JSON titles, definitions, concatemers)", "F/R.fastq (mates shorter than a 4-mer)", "long.fasta (no qualities, > pool size)",
+                    "het_*.fasta", "summary.fasta (every counter distinct)", "muxerr.fastq (tags with substitutions / indels between delimiters)",
+                    "assembled.fastq (records already annotated by obipairing)", "empty.fastq", "one.fastq (no final newline)", "witness_quoted.fastq"],
+        not_generated=["duplicate identifiers", "CRLF line ends", "records longer than the 1 MiB read buffer", "non-integer count attributes"])
     ctx.samples = [dict(command=" ".join(os.path.basename(x) for x in argv), records=nrec) for _, argv in lines[:4]]
 
 
